@@ -237,18 +237,33 @@ fn silence_stderr() {
     }
 }
 
-fn run_one(is_write: bool, g: &RefGraph, text: &str, params: &BTreeMap<String, LV>) -> (EngineOut, Option<RefGraph>) {
+fn add_indexes(store: &mut samyama::graph::GraphStore) {
+    for ddl in ["CREATE INDEX ON :A(p)", "CREATE INDEX ON :B(p)"] {
+        let pq = judge::parse(ddl).expect("index DDL parses");
+        match judge::run_write(store, &pq, &BTreeMap::new()) {
+            EngineOut::Rows(_) => {}
+            o => panic!("index DDL refused: {o:?}"),
+        }
+    }
+}
+fn run_one(is_write: bool, indexed: bool, g: &RefGraph, text: &str, params: &BTreeMap<String, LV>) -> (EngineOut, Option<RefGraph>) {
     let pq = match judge::parse(text) {
         Ok(p) => p,
         Err(e) => return (EngineOut::Err(e), None),
     };
     if is_write {
         let (mut store, _) = build(g, None);
+        if indexed {
+            add_indexes(&mut store);
+        }
         let out = judge::run_write(&mut store, &pq, params);
         let d = dump(&store);
         (out, Some(d))
     } else {
-        let (store, _) = build(g, Some(1));
+        let (mut store, _) = build(g, Some(1));
+        if indexed {
+            add_indexes(&mut store);
+        }
         (if params.is_empty() { judge::run_read(&store, &pq) } else { judge::run_read_params(&store, &pq, params) }, None)
     }
 }
@@ -276,11 +291,12 @@ fn main() {
             let g = &graphs().into_iter().find(|(n, _)| *n == w["graph"].as_str().unwrap()).unwrap().1;
             let is_write = w["write"].as_bool().unwrap();
             let vi = w["value_index"].as_u64().unwrap() as usize;
+            let indexed = w["indexed"].as_bool().unwrap_or(false);
             let mut params = BTreeMap::new();
             params.insert("p".to_string(), values()[vi].clone());
             println!("graph   : {}", g.describe());
-            println!("literal : {}\n  -> {:?}", w["literal_query"].as_str().unwrap(), run_one(is_write, g, w["literal_query"].as_str().unwrap(), &BTreeMap::new()));
-            println!("param   : {} with $p = {}\n  -> {:?}", w["param_query"].as_str().unwrap(), values()[vi].lit(), run_one(is_write, g, w["param_query"].as_str().unwrap(), &params));
+            println!("literal : {}\n  -> {:?}", w["literal_query"].as_str().unwrap(), run_one(is_write, indexed, g, w["literal_query"].as_str().unwrap(), &BTreeMap::new()));
+            println!("param   : {} with $p = {}\n  -> {:?}", w["param_query"].as_str().unwrap(), values()[vi].lit(), run_one(is_write, indexed, g, w["param_query"].as_str().unwrap(), &params));
             return;
         }
         let tally = qs
@@ -294,14 +310,15 @@ fn main() {
                         let par_q = replace_lit(q, idx, Expr::Param("p".into())).print();
                         let mut params = BTreeMap::new();
                         params.insert("p".to_string(), v.clone());
-                        for (gname, g) in &gs {
+                        for (gname, g, indexed) in gs.iter().flat_map(|(n, g)| [(n, g, false), (n, g, true)]) {
+                            let indexed: bool = indexed;
                             t.evaluations += 1;
                             *t.by_kind.entry(kind.to_string()).or_default() += 1;
-                            let (lo, lg) = run_one(*is_write, g, &lit_q, &BTreeMap::new());
-                            let (po, pg) = run_one(*is_write, g, &par_q, &params);
-                            let witness = || json!({"query": name, "literal_query": lit_q, "param_query": par_q, "value": v.lit(), "value_index": vi, "graph": gname, "write": is_write, "position": kind});
+                            let (lo, lg) = run_one(*is_write, indexed, g, &lit_q, &BTreeMap::new());
+                            let (po, pg) = run_one(*is_write, indexed, g, &par_q, &params);
+                            let witness = || json!({"query": name, "literal_query": lit_q, "param_query": par_q, "value": v.lit(), "value_index": vi, "graph": gname, "indexed": indexed, "write": is_write, "position": kind});
                             let mut flag = |sym: &str, msg: String| {
-                                let sig = format!("{kind}:{}|{sym}", vtype(v));
+                                let sig = format!("{kind}:{}|{sym}{}", vtype(v), if indexed { "|indexed" } else { "" });
                                 let e = t.groups.entry(sig).or_insert((0, msg, witness()));
                                 e.0 += 1;
                             };
@@ -357,7 +374,7 @@ fn main() {
         ctx.cov("evaluations", tally.evaluations);
         ctx.cov("generator_cardinality", json!({"queries": qs.len(), "graphs": gs.len(), "values": vals.len(), "evaluations": tally.evaluations}));
         ctx.cov("distinct_nontrivial", tally.compared);
-        ctx.cov("rule", "a case = (query, literal position, value, graph), all distinct; non-trivial when the parameterised run returned rows so that rows (and, for writes, the resulting graph) were compared with the literal run");
+        ctx.cov("rule", "a case = (query, literal position, value, graph, with / without property indexes on :A(p) and :B(p)), all distinct; non-trivial when the parameterised run returned rows so that rows (and, for writes, the resulting graph) were compared with the literal run");
         ctx.cov("param_refused", tally.param_refused);
         ctx.cov("both_refused", tally.both_err);
         ctx.cov("cases_per_position_kind", json!(tally.by_kind));
